@@ -269,6 +269,82 @@ def monC04 (o : Obs) : Bool :=
             (o.P'.contains y && !m.frm.contains y) ||
             o.s.active.any fun m2 => !isActionMapping m2 && m2.to.contains y
 
+/-! ### C08: an absorbed modifier applies to one keystroke only -/
+
+/-- ghost obligation: the mapping `m`, which absorbs `M`, fired on the press of `t` when `held` was
+the set of physically held keys; `fresh` = no other key has been pressed since -/
+structure Obl where
+  M : Key
+  t : Key
+  m : Mapping
+  held : List Key
+  fresh : Bool
+deriving DecidableEq, Repr, Inhabited
+
+def sameSet (a b : List Key) : Bool := a.all (fun k => b.contains k) && b.all (fun k => a.contains k)
+
+/-- ghost update of the obligations over one observed transition -/
+def nextObls (o : Obs) (obls : List Obl) : List Obl :=
+  let k := o.e.key
+  -- any event about M (press or release) discharges
+  let obls := obls.filter fun ob => ob.M != k
+  match o.e with
+  | Event.released _ => obls
+  | Event.pressed _ =>
+    if !o.accepted then obls
+    else
+      let obls := obls.map fun ob => if ob.t == k then ob else { ob with fresh := false }
+      match o.fired with
+      | some fm =>
+        let obls := obls.filter fun ob => !(fm.absorbing.contains ob.M)
+        obls ++ fm.absorbing.map fun M => ⟨M, k, fm, o.P', true⟩
+      | none => obls
+
+/-- clause (ii) at one press event: `M` is not down at the instant a non-modifier key is pressed,
+unless a mapping in effect (after the step) outputs `M` -/
+def noMAtPresses (M : Key) (V : List Key) (outputsM : Bool) : List Event → Bool
+  | [] => true
+  | Event.pressed x :: es =>
+    (!isActionKey x || !V.contains M || outputsM) && noMAtPresses M (applyEv V (Event.pressed x)) outputsM es
+  | Event.released x :: es => noMAtPresses M (applyEv V (Event.released x)) outputsM es
+
+/-- the three clauses of C08 for one pending obligation at one accepted press -/
+def c08i (o : Obs) (ob : Obl) : Bool :=
+  match o.fired with
+  | some fm => !fm.frm.contains ob.M
+  | none => true
+
+def c08ii (o : Obs) (ob : Obl) : Bool :=
+  noMAtPresses ob.M o.V (o.s'.active.any fun m => m.to.contains ob.M) o.evs
+
+def c08iii (o : Obs) (ob : Obl) : Bool := o.fired == some ob.m
+
+/-- signature of known finding D6: the violating press is of the LATEST absorbing trigger (which exempts
+every absorbed key), but the obligation was created by a different trigger -/
+def sigD6 (o : Obs) (ob : Obl) : Bool := o.s.absTrig == some o.e.key && ob.t != o.e.key
+
+/-- signature of known finding D7: the step fires a mapping whose output ends in a modifier but contains
+a non-modifier key (it is treated as a modifier-remapping and skips `release_absorbed_keys`) -/
+def sigD7 (o : Obs) : Bool :=
+  match o.fired with
+  | some fm => !isActionMapping fm && fm.to.any isActionKey
+  | none => false
+
+/-- C08 over one observed transition with the pending obligations; returns the violation tags -/
+def monC08 (o : Obs) (obls : List Obl) : List String :=
+  match o.e with
+  | Event.released _ => []
+  | Event.pressed k =>
+    if !o.accepted then []
+    else
+      (obls.filter fun ob => ob.M != k).flatMap fun ob =>
+        if ob.t != k then
+          (if c08i o ob then [] else [if sigD6 o ob then "C08:D6" else "C08:i"]) ++
+          (if c08ii o ob then [] else [if sigD6 o ob then "C08:D6" else if sigD7 o then "C08:D7" else "C08:ii"])
+        else if ob.fresh && sameSet o.P' ob.held then
+          (if c08iii o ob then [] else [if sigD6 o ob then "C08:D6" else "C08:iii"])
+        else []
+
 /-- all step monitors; returns the ids of the violated ones -/
 def stepMonitors (o : Obs) : List String :=
   (if monC01 o then [] else ["C01"]) ++
